@@ -1095,7 +1095,49 @@ def _probably_different(x, y):
     return False
 
 
-def _congruence_abstracted(ob, timeout_ms):
+def _ite_conditions(e, acc, seen):
+    if e.get_id() in seen:
+        return
+    seen.add(e.get_id())
+    if z3.is_app_of(e, z3.Z3_OP_ITE):
+        c = e.arg(0)
+        if all(not c.eq(x) for x in acc):
+            acc.append(c)
+    for ch in e.children():
+        _ite_conditions(ch, acc, seen)
+
+
+def _poly_identity_by_cases(goal, hyps):
+    """like _poly_identity, after a case split over the (few) if-then-else conditions occurring in the equality;
+    an assignment of the conditions under which the two sides differ must be infeasible under the hypotheses"""
+    import itertools
+    g = goal
+    pre = []
+    while z3.is_implies(g):
+        pre.append(g.arg(0))
+        g = g.arg(1)
+    if not (z3.is_eq(g) and g.arg(0).sort().kind() in (z3.Z3_INT_SORT, z3.Z3_REAL_SORT)):
+        return False
+    conds = []
+    _ite_conditions(g, conds, set())
+    if not conds or len(conds) > 5 or len(str(g)) > 40000:
+        return False
+    for vals in itertools.product((True, False), repeat=len(conds)):
+        sub = [(c, z3.BoolVal(v)) for c, v in zip(conds, vals)]
+        gi = z3.simplify(z3.substitute(g, *sub))
+        if z3.is_true(gi) or _poly_identity(gi):
+            continue
+        sv = z3.Solver()
+        sv.set("timeout", 1500)
+        sv.add(*hyps)
+        sv.add(*pre)
+        sv.add(*[c if v else z3.Not(c) for c, v in zip(conds, vals)])
+        if sv.check() != z3.unsat:
+            return False
+    return True
+
+
+def _congruence_abstracted(ob, timeout_ms, poly_only=False):
     """tactic for goals that are equalities of products containing uninterpreted function applications whose arguments
     are equal only up to arithmetic (polynomial identities, x/c vs x*(1/c) with c != 0):
     bottom-up, applications of the same function whose arguments are PROVED equal under the hypotheses are replaced by
@@ -1112,6 +1154,24 @@ def _congruence_abstracted(ob, timeout_ms):
         _uf_apps(h, acc, set())
         return not acc
     light = [h for h in hyps if _is_light(h)]      # bounds and definitions of ceil / div witnesses: enough for c != 0 side conditions
+    # one model of the hypotheses: two arguments that differ in it are certainly not provably equal (sound pruning)
+    model = None
+    for hy in (hyps, light):
+        sm = z3.Solver()
+        sm.set("timeout", 1500)
+        sm.add(*hy)
+        if sm.check() == z3.sat:
+            model = sm.model()
+            break
+
+    def differ_in_model(x, y):
+        if model is None:
+            return _probably_different(x, y)
+        try:
+            return z3.is_false(z3.simplify(model.eval(x == y, model_completion=True)))
+        except z3.Z3Exception:
+            return False
+    merged = [0]
     for _round in range(6):
         apps = []
         _uf_apps(goal, apps, set())
@@ -1147,10 +1207,12 @@ def _congruence_abstracted(ob, timeout_ms):
                         ok = False          # two different numerals
                         break
                     proved = False
-                    if _probably_different(x_, y_):
+                    if differ_in_model(x_, y_):
                         ok = False
                         break
-                    for hy, budget in (([], 500), (light, 1500), (hyps, 1500)):
+                    # different at random points: equality can only come from simple facts of the hypotheses (k == 0, n == 1 ...)
+                    plan = ((light, 700),) if _probably_different(x_, y_) else (([], 500), (light, 1500), (hyps, 1500))
+                    for hy, budget in plan:
                         sv = z3.Solver()
                         sv.set("timeout", budget)
                         sv.add(*hy)
@@ -1170,6 +1232,8 @@ def _congruence_abstracted(ob, timeout_ms):
         sub = []
         for cl in classes:
             c = z3.FreshConst(cl[0].sort(), "uf")
+            if len(cl) > 1:
+                merged[0] += 1
             for a in cl:
                 sub.append((a, c))
         goal = z3.substitute(goal, *sub)
@@ -1178,9 +1242,16 @@ def _congruence_abstracted(ob, timeout_ms):
         return None
     if _poly_identity(goal):
         return dict(status="unsat", backend="congruence-abstraction+polynomial-normal-form", model=None)
+    if _poly_identity_by_cases(goal, light):
+        return dict(status="unsat", backend="congruence-abstraction+case-split+polynomial-normal-form", model=None)
+    if poly_only:
+        return None
     import os as _os
     if _os.environ.get("PYVC_DEBUG_CONGR"):
         print("CONGR-ABSTRACTED GOAL", ob.name[-60:], "\n", goal)
+    if not merged[0]:
+        return None          # nothing was identified: the later phases do at least as well on the original obligation
+    t_end = min(t_end, time.time() + 4.0)
     s = z3.Solver()
     s.set("timeout", max(1000, int((t_end - time.time()) * 1000)))
     s.add(*hyps)
@@ -1204,20 +1275,69 @@ def _congruence_abstracted(ob, timeout_ms):
     return None
 
 
+def _congr_by_cases(ob, timeout_ms):
+    """case split over the if-then-else conditions of an equality BEFORE the congruence abstraction: inside a case the
+    conditions are hypotheses, so applications such as m(k0, t) and m(1, t) are merged when the case says k0 == 1."""
+    import itertools, time
+    t_end = time.time() + timeout_ms / 1000.0
+    g = ob.goal
+    pre = []
+    while z3.is_implies(g):
+        pre.append(g.arg(0))
+        g = g.arg(1)
+    if not (z3.is_eq(g) and g.arg(0).sort().kind() in (z3.Z3_INT_SORT, z3.Z3_REAL_SORT)):
+        return None
+    conds = []
+    _ite_conditions(g, conds, set())
+    if not conds or len(conds) > 4 or len(str(g)) > 40000:
+        return None
+    light = [h for h in ob.hyps if len(str(h)) <= 400]
+    for vals in itertools.product((True, False), repeat=len(conds)):
+        if time.time() > t_end:
+            return None
+        asg = [c if v else z3.Not(c) for c, v in zip(conds, vals)]
+        sv = z3.Solver()
+        sv.set("timeout", 1500)
+        sv.add(*light)
+        sv.add(*pre)
+        sv.add(*asg)
+        if sv.check() == z3.unsat:
+            continue                       # this combination of conditions cannot occur
+        gi = z3.simplify(z3.substitute(g, *[(c, z3.BoolVal(v)) for c, v in zip(conds, vals)]))
+        if z3.is_true(gi) or _poly_identity(gi):
+            continue
+        sub = Obligation(ob.name, list(ob.hyps) + pre + asg, gi, ob.meta)
+        r = _congruence_abstracted(sub, max(500, int((t_end - time.time()) * 1000)), poly_only=True)
+        if r is None:
+            return None
+    return dict(status="unsat", backend="case-split+congruence-abstraction+polynomial-normal-form", model=None)
+
+
 def discharge(ob, timeout_ms=10000, use_cvc5=True):
     """returns dict(status= 'unsat'|'sat'|'unknown', backend, time_s, model)"""
     import time
     t0 = time.time()
     reason = None
-    for phase, budget in (("quick", min(timeout_ms, 2500)), ("congr", timeout_ms), ("reseed1", min(timeout_ms, 2500)), ("reseed2", min(timeout_ms, 2500)),
+    for phase, budget in (("congr0", 3000), ("quick", min(timeout_ms, 2500)), ("congr", timeout_ms), ("reseed1", min(timeout_ms, 2500)), ("reseed2", min(timeout_ms, 2500)),
                           ("nlsat", timeout_ms), ("full", timeout_ms)):
         if phase == "congr" and timeout_ms <= 2500:
             continue
         if phase.startswith("reseed") and timeout_ms <= 2500:
             continue
-        if phase in ("nlsat", "congr"):
+        if phase in ("nlsat", "congr", "congr0"):
             if phase == "nlsat":
                 r1 = _nlsat_relaxed(ob, budget)
+            elif phase == "congr0":
+                # cheap and deterministic: equalities that become polynomial identities once equal kernel applications are named
+                g_ = ob.goal.arg(1) if z3.is_implies(ob.goal) else ob.goal
+                r1 = None
+                if z3.is_eq(g_) and g_.arg(0).sort().kind() == z3.Z3_REAL_SORT and len(str(g_)) < 30000:
+                    try:
+                        r1 = _congruence_abstracted(ob, 3000, poly_only=True)
+                        if r1 is None:
+                            r1 = _congr_by_cases(ob, 6000)
+                    except z3.Z3Exception:
+                        r1 = None
             else:
                 try:
                     r1 = _congruence_abstracted(ob, budget)
